@@ -189,6 +189,11 @@ def check_pack(case):
                     elif not same_fields(res, expf):
                         sig = "unpackify%s%s-fields" % ("-reverse" if reverse else "", "-boolean" if boolean else "")
                         fails.append((sig, "unpackify(%r, %r, %r) = %r, model %r (%s)" % (fmt, data, ukw, res, expf, label)))
+                    elif bytes(arg) != bytes(data):
+                        # the caller's buffer still holds the packed bytes: unpacking it again gives the same fields
+                        fails.append(("unpackify%s-changed-its-input" % ("-reverse" if reverse else ""),
+                                      "unpackify(%r, %s(%r), %r) left its argument as %r: a second unpack of the same buffer gives other fields"
+                                      % (fmt, type(arg).__name__, data, ukw, bytes(arg))))
     return _dedupe(fails)
 
 
